@@ -718,7 +718,16 @@ impl<'a> Exec<'a> {
         let f = |x: (u8, U7, U7)| [x.0, x.1.get(), x.2.get()];
         let arr: [Option<[u8; 3]>; 4] = api(L::pn_encode, || {
             let o = if order == 0 { DataEntryByteOrder::MsbFirst } else { DataEntryByteOrder::LsbFirst };
-            if fac == 0 {
+            // the array conversion is the other documented way to get the MSB-first encoding: every
+            // second MSB-first group uses it
+            let via_array = order == 0 && g % 2 == 1;
+            if via_array && fac == 0 {
+                let p: [Option<RawShortMessage>; 4] = msg.into();
+                [p[0].map(|q| f(q.to_bytes())), p[1].map(|q| f(q.to_bytes())), p[2].map(|q| f(q.to_bytes())), p[3].map(|q| f(q.to_bytes()))]
+            } else if via_array {
+                let p: [Option<StructuredShortMessage>; 4] = msg.into();
+                [p[0].map(|q| f(q.to_bytes())), p[1].map(|q| f(q.to_bytes())), p[2].map(|q| f(q.to_bytes())), p[3].map(|q| f(q.to_bytes()))]
+            } else if fac == 0 {
                 let p: [Option<RawShortMessage>; 4] = msg.to_short_messages(o);
                 [p[0].map(|q| f(q.to_bytes())), p[1].map(|q| f(q.to_bytes())), p[2].map(|q| f(q.to_bytes())), p[3].map(|q| f(q.to_bytes()))]
             } else {
